@@ -1489,6 +1489,81 @@ def h_core_constraints_enum(ctx, cfgs):
     reservations_hold(ctx, cs, grid, states, "core-reservations")
 
 
+def h_pnr_twice(ctx):
+    """place_and_route_wrapper run twice on the caller's own constraints
+    list, the machine probed again in between with other cores busy: what
+    the placer is handed each time reserves exactly that probe's non-idle
+    cores, next to the caller's constraints, and the caller's list is left
+    as it was."""
+    from rig.machine_control.machine_controller import SystemInfo, ChipInfo
+    from rig.machine_control.consts import AppState
+    import importlib
+    wmod = importlib.import_module("rig.place_and_route.wrapper")
+    from rig.place_and_route import Cores, SDRAM
+    from rig.place_and_route.constraints import (
+        AlignResourceConstraint, ReserveResourceConstraint)
+    sequential = importlib.import_module(
+        "rig.place_and_route.place.sequential")
+    from rig.netlist import Net
+    from rig.links import Links
+    grid = [(0, 0), (1, 0)]
+    mine = AlignResourceConstraint(SDRAM, 4)
+    own = ctx.pick(("own list", "default"))
+    caller_list = [mine]
+    members = (AppState.idle, AppState.run, AppState.pause)
+    seen = []
+
+    def place(vr, nets, machine, constraints, **kw):
+        seen.append(list(constraints))
+        return sequential.place(vr, nets, machine, constraints, **kw)
+
+    vr = {"v0": {Cores: 1, SDRAM: ctx.int("sd", 0, 8)}, "v1": {Cores: 1}}
+    nets = [Net("v0", ["v1"])]
+    keys = {nets[0]: (0x10, 0xfffffff0)}
+    apps = {"v0": "a.aplx", "v1": "a.aplx"}
+    probes = []
+    for run in range(2):
+        si = SystemInfo(2, 1)
+        states = {}
+        for x, c in enumerate(grid):
+            # core 1 in any state; core 2 of the first chip busy in the first
+            # probe only
+            sts = [AppState.run, ctx.pick(members),
+                   AppState.run if (run, x) == (0, 0) else AppState.idle,
+                   AppState.idle, AppState.idle, AppState.idle]
+            states[c] = [int(st) for st in sts]
+            si[c] = ChipInfo(
+                num_cores=6, core_states=sts,
+                working_links=set([Links.east] if x == 0 else [Links.west]),
+                largest_free_sdram_block=ctx.int("free%d%d" % (run, x),
+                                                 64, 128),
+                largest_free_sram_block=16,
+                largest_free_rtr_mc_block=1024, ethernet_up=(x == 0),
+                ip_address="10.0.0.1", local_ethernet_chip=(0, 0))
+        probes.append(states)
+        kw = {"constraints": caller_list} if own == "own list" else {}
+        try:
+            wmod.place_and_route_wrapper(vr, apps, nets, keys, si,
+                                         place=place, **kw)
+        except Exception as e:
+            ctx.observe(type(e).__name__)
+            ctx.prove(False, "place-and-route-wrapper-raised", repr(e))
+            return
+    ctx.witness("two runs")
+    ctx.observe([[(type(k).__name__, getattr(k, "location", None),
+                   getattr(k, "reservation", None)) for k in cs]
+                 for cs in seen])
+    ctx.prove(caller_list == [mine], "caller-constraints-list-modified",
+              len(caller_list))
+    for run, (cs, states) in enumerate(zip(seen, probes)):
+        res = [k for k in cs if isinstance(k, ReserveResourceConstraint)]
+        rest = [k for k in cs if not isinstance(k, ReserveResourceConstraint)]
+        ctx.prove(rest == ([mine] if own == "own list" else []),
+                  "caller-constraints-not-passed-on", (run, len(rest)))
+        reservations_hold(ctx, res, grid, states,
+                          "core-reservations-run-%d" % (run + 1))
+
+
 # ----------------------------------------------------------------------
 def units(tier, seed):
     q = tier == "quick"
@@ -1594,4 +1669,6 @@ def units(tier, seed):
                    h_core_constraints_enum, dict(
                        cfgs=(((1, 1), (0, 1)), ((2, 1), (1,)))), split=5,
                    witnesses=("enum-states",)))
+    us.append(Unit("place_and_route_wrapper twice, probed again in between",
+                   h_pnr_twice, {}, split=5, witnesses=("two runs",)))
     return us
